@@ -411,20 +411,23 @@ func (t *Teddy) FindMatch(haystack []byte, start int) (int, int) {
 
 	// Process candidates
 	for pos != -1 {
-		// Iterate through all set bits in bucket mask (like Rust's verify64)
+		// Every bucket that has a literal at this position is checked and the literal
+		// that comes first in pattern order wins: the prefilter may answer for the whole
+		// alternation (IsComplete), whose semantics are leftmost-first, and buckets are
+		// assigned round-robin, so bucket order is not pattern order.
+		best := -1
 		for bucketMask != 0 {
-			// Find lowest set bit (bucket ID)
 			bucket := bits.TrailingZeros8(bucketMask)
 			bucketMask &^= 1 << bucket // Clear the bit
 
-			// Verify patterns in this specific bucket
 			matchPos, patternID := t.verifyBucket(haystack[accumulatedOffset:], pos, bucket)
-			if matchPos != -1 && patternID >= 0 && patternID < len(t.patterns) {
-				// Match found! Return absolute start and end
-				matchStart := start + accumulatedOffset + matchPos
-				matchEnd := matchStart + len(t.patterns[patternID])
-				return matchStart, matchEnd
+			if matchPos != -1 && patternID >= 0 && patternID < len(t.patterns) && (best == -1 || patternID < best) {
+				best = patternID
 			}
+		}
+		if best >= 0 {
+			matchStart := start + accumulatedOffset + pos
+			return matchStart, matchStart + len(t.patterns[best])
 		}
 
 		// No match at this candidate in any bucket, continue searching
